@@ -36,6 +36,8 @@ type Script struct {
 	EarlyMs int    `json:"early_ms,omitempty"` // early: run time
 	Quit    string `json:"quit"`               // reaction to SIGQUIT: default | ignore | delay
 	QuitNs  int64  `json:"quit_ns,omitempty"`  // delay: exits this long after the SIGQUIT
+	HoldNs  int64  `json:"hold_ns,omitempty"`  // a descendant of the main command keeps its output pipes open this long after it exited (Wait returns only then)
+	HoldG   bool   `json:"hold_g,omitempty"`   // early mode: the descendant holds the pipes for one and a half grace periods (as aimed; 150 ms without a deadline)
 	Code    int    `json:"code,omitempty"`     // exit code of a natural exit
 	Neg     bool   `json:"neg,omitempty"`      // the main command is written "! exec"
 	After   int    `json:"after"`              // lines after the main command
@@ -85,6 +87,14 @@ func genPlan(t *rapid.T, tier string) any {
 		// delays below, around and above any plausible grace period
 		s.QuitNs = rapid.SampledFrom([]int64{int64(time.Millisecond), int64(30 * time.Millisecond), int64(99 * time.Millisecond), int64(100*time.Millisecond) - 1,
 			int64(100*time.Millisecond) + 1, int64(150 * time.Millisecond), int64(2 * time.Second), int64(40 * time.Second)}).Draw(t, "quitdelay")
+		if s.Mode == "around" && rapid.IntRange(0, 3).Draw(t, "hold") == 0 {
+			// the command exits around the interrupt instant while a descendant holds its output a little longer:
+			// the interrupt can find the process already gone although Wait has not returned
+			s.HoldNs = rapid.SampledFrom([]int64{int64(500 * time.Microsecond), int64(2 * time.Millisecond), int64(40 * time.Millisecond)}).Draw(t, "holdns") + 3
+		}
+		if s.Mode == "early" && rapid.IntRange(0, 3).Draw(t, "holdg") == 0 {
+			s.HoldG = true
+		}
 		s.Code = rapid.SampledFrom([]int{0, 0, 0, 1}).Draw(t, "code")
 		s.Neg = rapid.IntRange(0, 4).Draw(t, "neg") == 0
 		s.After = rapid.IntRange(0, 2).Draw(t, "after")
@@ -94,6 +104,14 @@ func genPlan(t *rapid.T, tier string) any {
 	p.Twin = rapid.IntRange(0, 2).Draw(t, "twin") == 0
 	if rapid.IntRange(0, 2).Draw(t, "limited") == 0 {
 		p.Parallel = rapid.SampledFrom([]int{1, 2, -1}).Draw(t, "parallel") // -1: a T whose Run is synchronous and Parallel a no-op
+	}
+	if p.Parallel != 0 || (p.DeadlineMs != 0 && p.DeadlineMs < 1000) {
+		// a descendant that holds the pipes cannot be interrupted by anybody: such a command is only generated
+		// where it is certainly over well before the deadline machinery fires (all scripts start at once, and the
+		// deadline is far enough away), which is also what the statement's "finish earlier" clause speaks about
+		for i := range p.Scripts {
+			p.Scripts[i].HoldG = false
+		}
 	}
 	if rapid.IntRange(0, 4).Draw(t, "keepwork") == 0 {
 		p.Keep = rapid.SampledFrom([]string{"testwork", "workdirroot"}).Draw(t, "keep")
@@ -163,6 +181,16 @@ func scriptText(i int, s Script, interruptAt, grace time.Duration) string {
 	}
 	if s.Code != 0 {
 		main += fmt.Sprintf(" code=%d", s.Code)
+	}
+	if s.HoldNs > 0 {
+		main += fmt.Sprintf(" hold=%dns", s.HoldNs+int64(i))
+	}
+	if s.HoldG {
+		h := grace * 3 / 2
+		if h == 0 {
+			h = 150 * time.Millisecond
+		}
+		main += fmt.Sprintf(" hold=%dns", int64(h)+29+int64(i))
 	}
 	b.WriteString(main + " out=main\n")
 	for k := 0; k < s.After; k++ {
@@ -348,6 +376,16 @@ func run(t *testing.T, plan any, keep bool) *simcheck.Outcome {
 			}
 		}
 	}
+	// the earliest instant at which the deadline machinery did anything at all: an interrupt that
+	// found its process already gone (its Wait still draining output a descendant holds) counts too
+	tiFire := tiObs
+	for _, pr := range res.procs {
+		for _, sg := range pr.Signals {
+			if sg.Sig == "quit" && (tiFire < 0 || sg.At < tiFire) {
+				tiFire = sg.At
+			}
+		}
+	}
 	interrupted, killed := 0, 0
 	affected := map[string]bool{}
 	firstInterrupt := map[string]time.Duration{}
@@ -479,7 +517,7 @@ func run(t *testing.T, plan any, keep bool) *simcheck.Outcome {
 		var idx []int
 		for i := range p.Scripts {
 			name := fmt.Sprintf("s%d", i)
-			if affected[name] || (tiObs >= 0 && res.subs[i].EndAt >= tiObs) {
+			if affected[name] || (tiFire >= 0 && res.subs[i].EndAt >= tiFire) {
 				continue // only scripts that were over before the deadline machinery did anything
 			}
 			finite := true
@@ -534,7 +572,7 @@ var harness = &simcheck.Harness{
 	Property: "C17",
 	Level:    "exploration",
 	Rule: "rapid draws a deadline distance (300 ms ... 10 min, or none), 1-3 scripts (quick commands, optional background process (exits on the deadline's interrupt; reacts to the clean-up's SIGINT promptly, after 3s / 40s, or never), one main foreground command that exits early, " +
-		"exits at the interrupt instant +-{1ns,1us,1ms,30ms}, or never; reaction to SIGQUIT: default, ignore, exit after a delay below / around / above the grace period; optional '!' prefix; lines after it), " +
+		"exits at the interrupt instant +-{1ns,1us,1ms,30ms}, or never, optionally with a descendant that holds its output pipes 0.5-40 ms longer; reaction to SIGQUIT: default, ignore, exit after a delay below / around / above the grace period; optional '!' prefix; lines after it), " +
 		"verbosity, work-directory retention (none / TestWork / WorkdirRoot), the number of subtests the T lets run at once (all, 1 or 2), whether a no-deadline twin run is compared, optionally an earlier RunT call in the same process with another deadline distance, and a schedule; non-trivial = a foreground command was interrupted or several scripts ran; distinct by decision-trace hash",
 	Gen:     genPlan,
 	NewPlan: func() any { return &Plan{} },
